@@ -286,7 +286,8 @@ func DoH1(op string) (core.Result, bool) {
 		if r, ok := doH1Write(args, wants); ok {
 			return r, true
 		}
-		res.Impl = "bad-op"
+		// not a codec op of this package (h1.reqclose / h1.reswrite belong to the exchange-machine harness)
+		return core.Result{}, false
 	}
 	return res, true
 }
